@@ -5,10 +5,17 @@ HOOKS = {
     "source_commits": [],
     "add_only": True,
 }
+ENGINES_SERVE = {}
 ENGINES = [
     {"name": "rc-shim", "path": "drivers/ + shims/ + vlib/core.py",
      "serves_properties": ["C01"],
      "kind_free_text": "rapidcheck properties (C++) over a flat C shim ABI; the shim is rebuilt from /repo for every build variant on every run; oracle = independent reference (GMP, libgcrypt, OpenSSL, spec-derived reference code)"},
+    {"name": "rc-state", "path": "drivers/ + shims/ + vlib/core.py", "serves_properties": [],
+     "kind_free_text": "rapidcheck command-sequence (history) generation against an in-memory model, invariant checked after every command"},
+    {"name": "lf", "path": "fuzz/ + vlib/core.py (run_lf_unit)", "serves_properties": [],
+     "kind_free_text": "libFuzzer targets (clang -fsanitize=fuzzer,address,undefined) with structure-aware decoding and semantic postconditions inside the target"},
+    {"name": "tp-sched", "path": "drivers/tp_*.cpp + shims/tp_*.c", "serves_properties": [],
+     "kind_free_text": "thread-pool harness: generated scenarios + schedule plan at LIBLCB_VERIF points + link-time fault wrappers; invariants over recorded callback histories"},
 ]
 NOTES = ("Exit 0 = held on everything explored; exit 1 + VIOLATION line = counterexample saved under replays/<id>/new/; "
          "exit 2 = the check itself is unusable (build failure), never reported as a violation. known_findings.json lists fixed/known findings.")
